@@ -81,6 +81,19 @@ add("C20", "exploration",
     "Trusts the object builder's model (encoded entries) and the reference walkers; wrong-type views only need to be refused.",
     "differential property-based testing (proptest) between alternative access paths, with encoder ground truth", "DESIGN.md §5 C20")
 
+add("C07", "exploration",
+    "Seeded proptest search over (file bytes: generated/corrupted/sample/raw) x (operation histories of up to 40 stream calls with repetition, incl. fabricated headers whose ranges share a start or an end and recur) x (readers delivering 1..n-byte chunks and Interrupted errors); differential oracle = the slice parser on the same bytes (open coincidence, identical headers, per-op digest equality, exact Ok/Err coincidence for the calls the statement lists, every earlier op re-asked at random). The thorough tier adds a libFuzzer campaign over the same oracle.",
+    "Scope exactly as the statement: ops on SHF_COMPRESSED sections and files with a present-but-empty section table are skipped and counted.",
+    "differential, history-based property testing (proptest; ops as vec + interpreter) stream parser vs slice parser; libFuzzer in the thorough tier", "DESIGN.md §5 C07")
+add("C08", "exploration",
+    "Seeded proptest search over stream contents whose headers claim sizes/counts/offsets from the boundary table (small files claiming up to 2^64-1) and layouts with up to 1 MiB of padding, x call histories; validity monitors: no panic, counting allocator window (every single request <= 8*len+4096; absurd requests park the thread and fail the case), instrumented Read+Seek log (bytes read by open within {ident, header, shdr[0], tables}; by each call within the ranges it designates).",
+    "Trusts the allocator shim and the independent header reader that computes the designated ranges; the version-query allowance is an over-approximation (all version sections).",
+    "property-based testing (proptest) with resource monitors (allocation-size bound, read-log containment)", "DESIGN.md §5 C08")
+add("C17", "fault_enumeration",
+    "For each generated base case (file x call history x reader behaviour) the fault-free run counts the I/O calls, then a fault is injected at EVERY single I/O call index for each of error/premature-EOF x transient/permanent (exhaustive single-fault enumeration), plus random multi-fault schedules with short reads; metamorphic oracle = the fault-free run: the call during which a fault fired returns Err, every other call returns Err or the fault-free answer.",
+    "Trusts the fault-injecting reader; Interrupted and short reads are legal behaviour, not failures.",
+    "exhaustive single-fault injection over property-based generated histories, metamorphic oracle (fault-free run)", "DESIGN.md §5 C17")
+
 NOT_YET = {}
 allp = [json.loads(l)["id"] for l in open("properties.jsonl")]
 checks = []
